@@ -226,10 +226,10 @@ def _run_plan(spec: dict, plan, scratch: str, timeout: float, confirm_hangs: boo
         try:
             res = wfgen.run_spec(spec, seed=seed, workdir=wd, timeout=timeout, shuffle=shuffle)
             if res["outcome"]["kind"] == "hang" and confirm_hangs and not res.get("known_deadlock_state"):
-                # a genuine deadlock reproduces under the same schedule; a slow machine does not: run again, 3x the time
+                # a genuine deadlock reproduces under the same schedule; a slow machine does not: run again, twice the window
                 shutil.rmtree(wd, ignore_errors=True)
                 os.makedirs(wd, exist_ok=True)
-                res2 = wfgen.run_spec(spec, seed=seed, workdir=wd, timeout=timeout * 3, shuffle=shuffle)
+                res2 = wfgen.run_spec(spec, seed=seed, workdir=wd, timeout=timeout * 2, shuffle=shuffle)
                 if res2["outcome"]["kind"] != "hang":
                     res2["retried_after_timeout"] = True
                 res = res2
@@ -298,7 +298,9 @@ def run_many(jobs: list[dict], scratch: str, timeout: float = 30.0, plain_first:
             if not plan:
                 results[idx] = []
                 continue
-            hard = len(plan) * (timeout + 10) + timeout * 3 + 60
+            # only a safety net against a hang of the harness itself: every run may legitimately take a hang window
+            # (timeout x load factor) plus the confirmation run (twice that)
+            hard = wfgen.load_factor() * len(plan) * (3 * timeout + 10) + 60
             dump_path = os.path.join(scratch, f"stuck-{os.getpid()}-{idx}-{time.time_ns()}.txt")
             parent, child = ctx.Pipe(duplex=False)
             proc = ctx.Process(target=_child_plan, daemon=True,
